@@ -115,8 +115,19 @@ def ambient_digest():
     return np_global_digest() + py_global_digest()
 
 
-def reset_ambient(seed):
+def set_numba_threads(k):
+    """numba's thread count is ambient process state the caller may change at any time; results must not depend on it.
+    (NUMBA_NUM_THREADS=4 and the fork-safe workqueue layer are set by `check`.)"""
+    try:
+        import numba
+        numba.set_num_threads(max(1, min(int(k), numba.config.NUMBA_NUM_THREADS)))
+    except Exception:
+        pass
+
+
+def reset_ambient(seed, numba_threads=1):
     """both global RNGs, print options and numba threads are set from the plan at the start of a run"""
+    set_numba_threads(numba_threads)
     numpy.random.seed(int(seed) % (2 ** 32))
     _pyrandom.seed(int(seed))
     numpy.set_printoptions(edgeitems=3, infstr='inf', linewidth=75, nanstr='nan', precision=8, suppress=False,
@@ -147,6 +158,8 @@ def apply_noise(op, env, res=None):
     elif k == "printopts":
         numpy.set_printoptions(precision=int(op.get("p", 3)), threshold=int(op.get("t", 5)), edgeitems=int(op.get("e", 1)),
                                suppress=bool(op.get("s", False)))
+    elif k == "numba_threads":
+        set_numba_threads(int(op["v"]))
     elif k == "np_default_rng":
         # somebody else uses the new-style API with the same integer seed
         numpy.random.default_rng(int(op["v"])).normal(size=int(op.get("n", 4)))
